@@ -18,22 +18,29 @@ def gen_consts(v):
     return v.gen_consts_cpp(ID, ['common/rpc/RpcChannel.h', 'common/rpc/RpcHeader.h', 'common/rpc/Rpc.pb.h'],
                             ents, os.path.join(v.VERIF, 'props', ID, 'coq', 'Gen.v'), prelude=prelude)
 
-RULE = ('scripts of chunks/calls: byte streams built from real RpcMessage encodings (requests for known/unknown/'
-        'streaming methods, all response kinds for outstanding/unknown/duplicate ids, ignored types), zero-size, '
-        'wrong-version, oversize (1 MB, 1 MB+1, 2^28-1) and undecodable frames, body sizes around the 2 kB initial '
-        'buffer and shrinking/growing sequences, noise; each stream cut whole / per byte / at every header offset / '
-        'randomly, calls interleaved at any offset; sequence numbers near 2^32 and forced id reuse; jammed send '
-        'direction.  non-trivial = at least one message dispatched by the model; distinct = distinct model output line')
+RULE = ('one-channel scripts of chunks/calls/completions: byte streams built from real RpcMessage encodings (requests for '
+        'known/unknown/streaming methods, all response kinds for outstanding/unknown/duplicate ids, ignored types), '
+        'zero-size, wrong-version, oversize (1 MB, 1 MB+1, 2^28-1) and undecodable frames, body sizes around the 2 kB '
+        'initial buffer and shrinking/growing sequences, noise, arbitrary/mutated protobuf bodies whose decoding is taken '
+        'from the real parser; each stream cut whole / per byte / at every header offset / randomly; calls (ordinary, '
+        'streaming, to methods of another service) interleaved at any offset; sequence numbers near 2^32 and forced id '
+        'reuse; jammed send direction; asynchronous service completing requests later, out of order, with duplicate '
+        'request ids.  two-channel scripts: two real RpcChannels back to back over a pipe pair, the server lacking '
+        'methods and answering when told.  non-trivial = at least one message dispatched by the model; distinct = '
+        'distinct model output line')
 ASSUMPTIONS = ['realloc does not fail', 'little-endian host (header word is read with the host byte order; LE_PROBE obligation)',
                'ConnectedDescriptor::Receive(buf, n) returns the first min(n, available) bytes (level-triggered poller); '
                'its multi-read cursor defect is C10\'s subject',
-               'the service completes requests synchronously (deferred server-side completion and duplicate request '
-               'ids on the server side are not modelled)']
+               'the service runs each completion callback at most once (it is a SingleUseCallback)',
+               'the error text of a superseded request is empty (the service had not called SetFailed on it yet)']
 TRUSTED = ['modelled rather than verified: RpcChannel.cpp DescriptorReady/ReadHeader/AllocateMsgBuffer/HandleNewMsg/'
            'HandleRequest/HandleStreamRequest/RequestComplete/SendRequestFailed/SendNotImplemented/Handle*Response/'
-           'CallMethod/SendMsg, RpcHeader::DecodeHeader; constants regenerated into Gen.v',
+           'CallMethod (incl. streaming)/SendMsg, RpcHeader::DecodeHeader; constants regenerated into Gen.v',
            'protobuf parsing of RpcMessage/EchoRequest is a Section function in the theorems; in the correspondence it is '
-           'instantiated by a table the generator computes (hand encoder in prop.py) for the bodies it emits',
+           'instantiated by a table: computed by the generator (hand encoder in prop.py) for the frames it constructs, and '
+           'by the real parser (oracle mode of the harness built from the tree under test) for arbitrary bodies',
+           'two-channel mode: the model driver uses its own wire encoding between its two model instances (only decoded '
+           'messages are compared; buffer-size internals are not compared in this mode)',
            'harness reads private members (m_expected_size, m_current_size, m_buffer_size, m_sequence) via '
            '#define private public; ASan __sanitizer_get_allocated_size for the real block size']
 
@@ -77,15 +84,30 @@ class Script:
         self.rng, self.tag = rng, tag
         self.T, self.Q = {}, {}
         self.stream = []         # bytes
-        self.calls = []          # stream offsets at which a call is made
+        self.marks = []          # (stream offset, token): calls / completions made at that point
+        self.flags = []          # mode tokens (A)
+        self.nreq = 0            # requests handed to the service so far (simulated)
+        self.pending = []        # request numbers the async service still holds
         self.pre = []            # tokens before anything (q..)
         self.post = []           # tokens after the stream
         self.ids = []            # ids of calls planned so far
         self.seq = 0
     def setseq(self, v):
         self.pre.append('q%d' % v); self.seq = v
-    def call(self):
-        self.calls.append(len(self.stream)); self.ids.append(self.seq); self.seq = (self.seq + 1) & 0xffffffff
+    def call(self, code=''):
+        self.marks.append((len(self.stream), 'm' + code))
+        if code not in ('t', 'd'): self.ids.append(self.seq)
+        self.seq = (self.seq + 1) & 0xffffffff
+    def mark(self, tok):
+        self.marks.append((len(self.stream), tok))
+    def served_request(self, mid, name=b'Echo'):
+        """a REQUEST that reaches the service (known method, valid request); returns its number"""
+        data = bytes(self.rng.randrange(32, 127) for _ in range(self.rng.choice([0, 1, 3])))
+        rq = echo_req(data)
+        self.Q[hx(rq)] = hx(rq)
+        self.frame(1, mid, name, rq)
+        q = self.nreq; self.nreq += 1
+        return q
     def frame(self, ty, mid=None, name=None, buf=None, version=1):
         body = enc_msg(ty, mid, name, buf)
         self.T[hx(body)] = '%d,%d,%s,%s' % (ty, mid or 0, hx(name or []), hx(buf or []))
@@ -155,7 +177,7 @@ class Script:
     def tokens(self, mode):
         rng = self.rng
         n = len(self.stream)
-        cuts = set(self.calls)
+        cuts = set(o for o, _ in self.marks)
         if mode == 'whole':
             pass
         elif mode == 'bytes':
@@ -175,22 +197,24 @@ class Script:
                 if rng.random() < 0.5: cuts.add(p + 4 + sz - 1)
                 p += 4 + sz
         cuts = sorted(c for c in cuts if 0 <= c <= n)
-        toks = ['@' + self.tag]
+        toks = ['@' + self.tag] + self.flags
         toks += ['T%s:%s' % kv for kv in self.T.items()]
         toks += ['Q%s:%s' % kv for kv in self.Q.items()]
         toks += self.pre
         pos = 0
-        callpos = sorted(self.calls)
+        marks = sorted(self.marks, key=lambda x: x[0])   # stable: keeps the order of equal offsets
         ci = 0
+        while ci < len(marks) and marks[ci][0] == 0:
+            toks.append(marks[ci][1]); ci += 1
         bounds = cuts + [n]
         for b in bounds:
             if b > pos:
                 toks.append('c' + hx(self.stream[pos:b]))
                 pos = b
-            while ci < len(callpos) and callpos[ci] == pos:
-                toks.append('m'); ci += 1
-        while ci < len(callpos):
-            toks.append('m'); ci += 1
+            while ci < len(marks) and marks[ci][0] == pos:
+                toks.append(marks[ci][1]); ci += 1
+        while ci < len(marks):
+            toks.append(marks[ci][1]); ci += 1
         toks += self.post
         return ' '.join(toks)
 
@@ -228,7 +252,8 @@ def gen_script(rng, kind):
             s.setseq(rng.choice([1, 127, 128, 300, 0x7fffffff, 0x80000000]))
         ncall = rng.choice([1, 2, 3, 5, 8])
         for _ in range(ncall):
-            s.call()
+            s.call(rng.choice(['', '', '', 'e', 'f', 'g', 't', 'd']))
+            if not s.ids: s.call()
             if rng.random() < 0.3 and s.ids:
                 s.response(rng.choice(s.ids))
             if rng.random() < 0.15: s.request()
@@ -242,7 +267,7 @@ def gen_script(rng, kind):
         for i in answers:
             if rng.random() < 0.15: s.response(rng.choice([i + 1000, (i - 1) & 0xffffffff, 0xdeadbeef]))
             s.response(i)
-            if rng.random() < 0.2: s.call()
+            if rng.random() < 0.2: s.call(rng.choice(['', 't', 'd']))
         if kind == 'dupid':
             # force the sequence back: a later call reuses the id of a call that is still outstanding
             base = s.ids[0]
@@ -263,13 +288,132 @@ def gen_script(rng, kind):
         elif rng.random() < 0.3:
             s.bad(rng.choice(['badver', 'oversize', 'undecodable']))
             s.post += ['m', 'm']        # calls on a closed channel fail at once
+    elif kind == 'async':
+        # the service answers later and out of order; ids reused while a request is outstanding
+        s.flags.append('A')
+        todo = []
+        for _ in range(rng.choice([1, 2, 3, 5])):
+            mid = rng.choice([0, 1, 2, 7, 0xffffffff])
+            q = s.served_request(mid, rng.choice([b'Echo', b'Echo', b'FailedEcho']))
+            todo.append(q)
+            r = rng.random()
+            if r < 0.3 and todo:
+                q2 = todo.pop(rng.randrange(len(todo)))
+                s.mark('k%d%s' % (q2, rng.choice('RRF')))
+            elif r < 0.45:
+                s.response(rng.choice([0, 1, 5]))   # anything else in between
+            if rng.random() < 0.1: s.bad('zero')
+        if rng.random() < 0.15:
+            s.bad(rng.choice(['badver', 'undecodable']))   # completions arrive after the channel closed
+        rng.shuffle(todo)
+        for q in todo:
+            if rng.random() < 0.85: s.mark('k%d%s' % (q, rng.choice('RRF')))
     return s
 
-def gen_cases(rng, tier):
-    n = 150 if tier == 'quick' else 9000
-    kinds = ['valid', 'zero', 'badver', 'oversize', 'maxexact', 'undecodable', 'noise', 'bufsize',
-             'calls', 'calls', 'wrap', 'dupid', 'jam']
+def gen_two(rng):
+    """two real channels back to back: client calls, the server answers when told, in any order"""
+    toks = ['@two', '2']
+    if rng.random() < 0.85: toks.append('A')
+    asyncm = 'A' in toks
+    if rng.random() < 0.3: toks.append('q%d' % rng.choice([1, 0xffffffff, 0xfffffffe, 0x7fffffff]))
+    nreq = 0
+    pending = []
+    for _ in range(rng.choice([2, 3, 5, 8, 12])):
+        r = rng.random()
+        if r < 0.6 or not pending:
+            code = rng.choice(['e', 'e', 'e', 'f', 'g', 't', 'd', 'd'])
+            toks.append('m' + code)
+            if code in ('e', 'f'):
+                if asyncm: pending.append(nreq)
+                nreq += 1
+        else:
+            q = pending.pop(rng.randrange(len(pending)))
+            toks.append('k%d%s' % (q, rng.choice('RRF')))
+    rng.shuffle(pending)
+    for q in pending:
+        if rng.random() < 0.8: toks.append('k%d%s' % (q, rng.choice('RRF')))
+    return ' '.join(toks)
+
+def real_parse(bodies):
+    """Run the real RpcMessage parser (oracle mode of the harness just built from the tree under
+    test) on a list of bodies; returns {bodyhex: 'type,id,name,buf' or None}.  Empty if unavailable."""
+    import os, subprocess, sys, tempfile
+    v = sys.modules.get('vlib')
+    if v is None or not bodies:
+        return {}
+    exe = os.path.join(v.BUILD, ID, 'harness')
+    if not os.path.exists(exe):
+        return {}
+    out = {}
+    try:
+        with tempfile.NamedTemporaryFile('w', suffix='.in', dir=os.path.join(v.BUILD, ID), delete=False) as f:
+            for i in range(0, len(bodies), 50):
+                f.write('b%d P %s\n' % (i, ' '.join(hx(b) for b in bodies[i:i + 50])))
+            name = f.name
+        p = subprocess.run([exe, name], stdout=subprocess.PIPE, stderr=subprocess.DEVNULL, timeout=300)
+        os.unlink(name)
+        for line in p.stdout.decode(errors='replace').split('\n'):
+            if not line.startswith('R b'):
+                continue
+            parts = line.split(' ', 2)
+            base = int(parts[1][1:])
+            for kv in parts[2].split(';'):
+                if kv[:1] in ('p', 'q', 'r') and '=' in kv:
+                    k, val = kv.split('=', 1)
+                    out[(k[0], hx(bodies[base + int(k[1:])]))] = None if val == 'none' else val
+    except Exception:
+        return {}
+    return out
+
+def random_body(rng):
+    """arbitrary bytes shaped like protobuf so that a fair share of them parse"""
+    r = rng.random()
+    if r < 0.35:
+        return [rng.randrange(256) for _ in range(rng.choice([1, 2, 3, 5, 9, 20, 60]))]
+    b = enc_msg(rng.choice([0, 1, 2, 3, 4, 5, 6, 10, 11, 200]), rng.choice([None, 0, 5, 1 << 31, (1 << 32) - 1, 1 << 33]),
+                rng.choice([None, b'Echo', b'Nope', bytes([0xff, 0xfe])]),
+                rng.choice([None, [], [0x0a, 0x01, 0x61], [rng.randrange(256) for _ in range(6)]]))
+    if r < 0.6:
+        # mutate: flip a byte, truncate, append an unknown field, repeat a field
+        m = rng.choice(['flip', 'trunc', 'unknown', 'dup', 'group'])
+        if m == 'flip' and b: b[rng.randrange(len(b))] = rng.randrange(256)
+        elif m == 'trunc': b = b[:rng.randrange(len(b) + 1)]
+        elif m == 'unknown': b += rng.choice([[0x28, 0x07], [0x32, 0x02, 0x41, 0x42], [0x3d, 1, 2, 3, 4], [0x41, 1, 2, 3, 4, 5, 6, 7, 8]])
+        elif m == 'dup': b += [0x08, rng.choice([1, 2, 4]), 0x10, 0x05]
+        elif m == 'group': b += rng.choice([[0x2b, 0x2c], [0x2b], [0x2c]])
+    return b
+
+def gen_random_bodies(rng, n):
+    """streams of frames with arbitrary bodies; what each body decodes to comes from the real parser"""
+    bodies = [b for b in (random_body(rng) for _ in range(n * 3)) if b]
+    table = real_parse(bodies)
+    if not table:
+        return
     for i in range(n):
+        s = Script(rng, 'randbody')
+        for _ in range(rng.choice([1, 2, 3])):
+            if rng.random() < 0.3: s.call()
+            b = rng.choice(bodies)
+            val = table.get(('p', hx(b)))
+            if val is not None and val.split(',')[0] == '2' and table.get(('r', hx(b))) != '1':
+                continue     # a reply whose payload the completion could not report back verbatim
+            if val is not None:
+                s.T[hx(b)] = val
+                rep = table.get(('q', hx(b)))
+                if rep is not None:
+                    s.Q[val.split(',')[3]] = rep      # its buffer is a valid EchoRequest
+            s.stream += header(1, len(b)) + b
+        yield s.tokens(rng.choice(MODES))
+
+def gen_cases(rng, tier):
+    n = 130 if tier == 'quick' else 8000
+    kinds = ['valid', 'zero', 'badver', 'oversize', 'maxexact', 'undecodable', 'noise', 'bufsize',
+             'calls', 'calls', 'wrap', 'dupid', 'jam', 'async', 'async']
+    for c in gen_random_bodies(rng, 300 if tier == 'quick' else 20000):
+        yield c
+    for i in range(n):
+        for _ in range(3):
+            yield gen_two(rng)
         for kind in kinds:
             s = gen_script(rng, kind)
             modes = MODES if (i % 4 == 0) else [rng.choice(MODES)]
@@ -288,18 +432,20 @@ def nontrivial(payload, md):
                 last = c if last is None else max(last, c)
     return bool(last)
 
-LEVEL_TEXT = ('Coq theorems, for all byte streams, all segmentations into reads and all interleavings of calls, over an '
-              'executable model of RpcChannel (with the four fixes of props/C09/fixes): every buffer write is inside '
-              'm_buffer_size <= real block <= 1 MB and the channel is never left expecting more bytes than its buffer holds '
-              '(wrong-version / oversize headers close it and reset the message state); the dispatched message sequence equals '
-              'a reference framer applied to the whole stream, independent of chunking (headers split across reads included); '
-              'every call completes at most once, exactly once when answered or when the send failed, with the outcome of a '
-              'message carrying its own id, also across sequence-number wrap and id reuse.  Server-side deferred completion '
-              '(OutstandingRequest lifetime, duplicate request ids) and realloc failure are not modelled.')
+LEVEL_TEXT = ('Coq theorems, for all byte streams, all segmentations into reads and all interleavings of calls and service '
+              'completions, over an executable model of RpcChannel (with the five fixes of props/C09/fixes): every buffer '
+              'write is inside m_buffer_size <= real block <= 1 MB and the channel is never left expecting more bytes than its '
+              'buffer holds (wrong-version / oversize headers close it and reset the message state); the dispatched message '
+              'sequence equals a reference framer applied to the whole stream, independent of chunking; every call (streaming '
+              'calls draw ids like any other and are never registered) completes at most once, exactly once when answered or '
+              'when the send failed, only through a message carrying its own id, also across sequence-number wrap and id '
+              'reuse; the serving side only writes replies carrying the id of a request it received, also with duplicate '
+              'request ids and asynchronous out-of-order completion.  realloc failure is not modelled; the lifetime of '
+              'server-side request objects is checked by ASan in the correspondence, not by a theorem.')
 LEVEL_NOTE = ('Trusted: Coq kernel, extraction (ExtrOcamlBasic), OCaml/C++ glue, generator coverage; model = code is validated '
               'by differential testing (real RpcChannel on a socketpair under ASan/UBSan, raw bytes in generated chunkings, '
-              'level-triggered DescriptorReady, state compared after every operation), not proved.  Protobuf decoding is an '
-              'arbitrary function in the theorems; ConnectedDescriptor::Receive is assumed to return the first min(n, available) '
-              'bytes (its internals belong to C10); little-endian host.')
+              'level-triggered DescriptorReady, state compared after every operation; two real channels back to back), not '
+              'proved.  Protobuf decoding is an arbitrary function in the theorems; ConnectedDescriptor::Receive is assumed to '
+              'return the first min(n, available) bytes (its internals belong to C10); little-endian host.')
 TECHNIQUE = 'Coq proof on hand-written executable model + extracted-model/implementation differential correspondence'
 DESIGN_REF = 'DESIGN.md §4 C09'
